@@ -7,17 +7,24 @@ For every runtime function that dispatches on `GarnishDataType`s:
       BDefer ..   the catch-all shape
                     if !this.defer_op(I, (tl, al), (tr, ar))? { push_unit(this)? }
                   with where I, tl, al, tr, ar come from (recognised syntactically),
-      BNamed n .. any other body; `n` is the stable name tools/arms.json assigns to
-                  the whitespace-normalised body text (its meaning is hand-written
-                  in Model/OpDispatch.v), plus the helpers it calls and whether it
-                  tests for the `UnsupportedOpTypes` error code,
+      BNamed n .. any other body, classified by the FEATURES read from its current text:
+                  contains no defer_op (one in an unrecognised shape raises), which look-up
+                  helpers it calls, whether it tests for the `UnsupportedOpTypes` code, whether
+                  it produces that code itself.  `n` only refines what the correspondence run
+                  compares (top type, jump, data dependence; meaning hand-written in
+                  Model/OpDispatch.v): exact body hash in tools/arms.json, else the name of the
+                  arm of the same function with the same patterns (body changed; noted), else
+                  `other` (generic listed arm).  `python3 -m sync.dispatch --refresh` (cwd
+                  tools/) re-keys arms.json to the current bodies.
   * first-match semantics `arm_of`,
-  * the falsy sets of is_true_value / jump_if_true / jump_if_false, extracted
-    separately from the shape of those three functions,
+  * (Gen/Truth.v, through tools/sync/truth.py) the falsy sets of is_true_value /
+    jump_if_true / jump_if_false, extracted separately from the shape of those three
+    functions, and what and/or/xor/not/tis do on a true / false test,
   * the shape of every op function execute.rs calls (Gen/Exec.v `op_fn`): which
-    dispatch function it goes through, with which `Instruction` constant, what
-    the logical operators do on a true / false test.
-Anything that does not have one of the recognised shapes raises (a broken tie).
+    dispatch function it goes through, with which `Instruction` constant.
+A dispatch function or op function that is not understood is written with an empty arm
+list / ShUnknown and reported by tools/sync/dispatch_strict.py (a broken tie for C08; C10
+only needs Gen/Truth.v and the op shapes of its seven constructs).
 """
 import hashlib, json, os, re
 from . import rustsrc as R
@@ -294,6 +301,38 @@ def parse_pattern(pat):
     return alts, guard
 
 
+
+def alt_texts(pat):
+    """normalised alternatives of a pattern: ['(Pair,Number)', ...]"""
+    p = split_top(pat, " if ")[0]
+    return [re.sub(r"\s+", "", a).replace("GarnishDataType::", "") for a in split_top(p, "|")]
+
+
+def name_for(fname, pat, abody, arm_names, notes):
+    """stable name of a non-deferring arm body.  Exact body hash first; a body that changed
+    keeps the name of the arm of the same function whose patterns it (mostly) shares -- the
+    features the theorems use (defer_op? helpers? unsupported-types code?) are re-read from
+    the new body anyway, and what else the body does is the correspondence run's business;
+    an arm that matches nothing known is `other` (generic defined arm)."""
+    if norm(abody.strip("{} ")) == "Err(RuntimeError::unsupported_types())":
+        return "unsupported"
+    h = hashlib.sha256(abody.encode()).hexdigest()[:12]
+    table = arm_names.get(fname, {})
+    if h in table:
+        return table[h]["name"]
+    mine = set(alt_texts(pat))
+    best = None
+    for hh, e in sorted(table.items()):
+        pats = set(e.get("patterns") or [re.sub(r"\s+", "", e.get("first_pattern", ""))])
+        ov = len(pats & mine)
+        if ov and e["name"] != "unsupported" and (best is None or ov > best[0]):
+            best = (ov, e["name"])
+    if best:
+        notes.append("%s: body of arm %s changed (hash %s); kept the name %s" % (fname, pat[:60], h, best[1]))
+        return best[1]
+    notes.append("%s: arm %s (hash %s) is not in tools/arms.json; treated as a generic defined arm" % (fname, pat[:60], h))
+    return "other"
+
 DEFER_RE = re.compile(
     r"^\{ if !this\.defer_op\(([\w:]+), \(([\w:]+), ([\w:()]+)\), \(([\w:]+), ([\w:()]+)\)\)\? \{ push_unit\(this\)\?;? \} \}$")
 
@@ -343,6 +382,8 @@ def analyse(name, src, type_names, arm_names):
                 raise ValueError("%s: mutable scrutinee %s is changed in an unrecognised way" % (name, loc))
             f.corrects.append(idx)
     f.arms = []
+    f.named = []
+    f.notes = []
     for pat, abody in arms:
         alts, guard = parse_pattern(pat)
         width = len(f.scrut)
@@ -403,16 +444,13 @@ def analyse(name, src, type_names, arm_names):
         else:
             if "defer_op" in abody:
                 raise ValueError("%s: defer_op call in an unrecognised shape: %s" % (name, abody[:160]))
-            h = hashlib.sha256(abody.encode()).hexdigest()[:12]
-            table = arm_names.get(name, {})
-            if h not in table:
-                raise ValueError("%s: arm body not in tools/arms.json (hash %s, pattern %s): %s" % (name, h, pat[:80], abody[:200]))
-            nm = table[h]["name"]
+            nm = name_for(name, pat, abody, arm_names, f.notes)
             helpers = [x for x in HELPERS if re.search(r"\b%s\(" % x, abody)]
             absorbs = bool(re.search(r"UnsupportedOpTypes|absorb_unsupported\(", abody))
-            desc = "BNamed A_%s [%s] %s" % (nm, "; ".join("H_" + x for x in helpers), "true" if absorbs else "false")
-            f.named = getattr(f, "named", [])
-            f.named.append(nm)
+            raises = "unsupported_types()" in abody
+            desc = "BNamed A_%s [%s] %s %s" % (nm, "; ".join("H_" + x for x in helpers), "true" if absorbs else "false",
+                                               "true" if raises else "false")
+            f.named.append((nm, hashlib.sha256(abody.encode()).hexdigest()[:12], pat))
         f.arms.append((alts, gtxt, desc, pat))
     return f
 
@@ -606,29 +644,56 @@ Fixpoint arm_of_list (arms : list arm) (n : nat) (tys : list data_type) : option
 """
 
 
-def generate():
+ERRORS = {}      # per-function problems of the last analysis (function -> message)
+NOTES = []       # changed / unknown arm bodies that were still classified
+
+
+def analyse_all():
+    """-> (fns, shapes, ops, arm_names); fills ERRORS / NOTES.  A function whose dispatch is not
+    understood gets an empty arm list (its operations then no longer satisfy C08's theorems, which
+    is a broken tie for C08 only); an op function of unrecognised shape becomes ShUnknown."""
+    global ERRORS, NOTES
+    ERRORS, NOTES = {}, []
     sources = all_rt_sources()
     type_names = R.enum_variants(R.read("traits/src/data.rs"), "GarnishDataType")
     arm_names = json.load(open(ARMS_JSON))
+    # the only sources of the 'unsupported types' code the model knows how to follow
+    for fn, src in sources.items():
+        for m in re.finditer(r"\bfn (\w+)\b", src):
+            try:
+                _, b = fn_header_and_body(src, m.group(1))
+            except Exception:
+                continue
+            if "RuntimeError::unsupported_types()" in b and m.group(1) not in HELPERS:
+                ERRORS[m.group(1)] = "%s returns the unsupported-types error but is not a known helper" % m.group(1)
     fns = []
     for name, file in DISPATCH:
         if name in ("is_true_value", "jump_if_true", "jump_if_false"):
             continue
-        fns.append(analyse(name, sources[file], type_names, arm_names))
+        try:
+            f = analyse(name, sources[file], type_names, arm_names)
+            NOTES += f.notes
+        except Exception as e:
+            ERRORS[name] = "%s: %s" % (type(e).__name__, e)
+            f = Fn()
+            f.name, f.scrut, f.pops, f.corrects, f.arms, f.named, f.notes = name, [], [], [], [], [], []
+        fns.append(f)
     dispatch_names = [n for n, _ in DISPATCH]
-    falsy = {}
-    for name, file in DISPATCH:
-        if name in ("is_true_value", "jump_if_true", "jump_if_false"):
-            falsy[name] = falsy_of(name, sources[file])
-    logic = logic_shapes(sources["logical.rs"])
     ops = execmap.op_functions()
     shapes = {}
-    body_hashes = {}
     for op in ops:
-        shapes[op], b = op_shape(op, sources, dispatch_names)
-        body_hashes[op] = hashlib.sha256(b.encode()).hexdigest()[:12]
-    # arm names in use: every name in arms.json (stable inductive), in sorted order
-    all_named = sorted({v["name"] for k, t in arm_names.items() if not k.startswith("_") for v in t.values()})
+        try:
+            shapes[op], _ = op_shape(op, sources, dispatch_names)
+        except Exception as e:
+            ERRORS["op " + op] = "%s: %s" % (type(e).__name__, e)
+            shapes[op] = "ShUnknown"
+    return fns, shapes, ops, arm_names
+
+
+def generate():
+    fns, shapes, ops, arm_names = analyse_all()
+    # arm names in use: every name in arms.json (stable inductive) + the generic one
+    all_named = sorted({v["name"] for k, t in arm_names.items() if not k.startswith("_") for v in t.values()} | {"other", "unsupported"})
 
     t = R.HEADER % "runtime/src/runtime/*.rs (type-dispatch tables), runtime/src/execute.rs"
     t = t.replace("From Coq Require Import NArith List.", "From Coq Require Import NArith List Bool.\nFrom GV Require Import Gen.Instr Gen.Exec.")
@@ -638,13 +703,18 @@ def generate():
     t += "(* stable names of the hand-interpreted arm bodies (tools/arms.json) *)\n"
     t += R.coq_inductive("arm_name", all_named, "A_") + "\n"
     t += R.coq_eqb("arm_name", all_named, "A_") + "\n\n"
-    t += ("Inductive body : Type :=\n"
+    t += ("(* BNamed: which helpers the body calls, whether it tests for the UnsupportedOpTypes code,\n"
+          "   whether it produces that code itself (`RuntimeError::unsupported_types()`) -- read from the\n"
+          "   current body text whatever its name *)\n"
+          "Inductive body : Type :=\n"
           "| BDefer (i : instr_src) (lt : ty_src) (la : addr_src) (rt : ty_src) (ra : addr_src)\n"
-          "| BNamed (n : arm_name) (calls : list helper) (tests_unsupported : bool).\n")
+          "| BNamed (n : arm_name) (calls : list helper) (tests_unsupported : bool) (raises_unsupported : bool).\n")
     t += STATIC2
     t += "\n" + R.coq_inductive("disp_fn", [f.name for f in fns], "F_") + "\n"
     t += R.coq_eqb("disp_fn", [f.name for f in fns], "F_") + "\n\n"
     for f in fns:
+        if f.name in ERRORS:
+            t += "(* %s: NOT UNDERSTOOD by the translator (%s) *)\n" % (f.name, ERRORS[f.name].replace("*)", "* )")[:300])
         t += "(* %s: scrutinee components are the types of %s; pops %d register(s) *)\n" % (f.name, ", ".join(f.scrut), len(f.pops))
         t += "Definition %s_arms : list arm :=\n  [" % f.name
         rows = []
@@ -670,24 +740,6 @@ def generate():
         t += "  | F_%s => [%s]\n" % (f.name, "; ".join("%d%%nat" % i for i in f.corrects))
     t += "  end.\n\n"
     t += "Definition arm_of (f : disp_fn) (tys : list data_type) : option (nat * arm) := arm_of_list (arms_of f) 0%nat tys.\n\n"
-    # falsy sets
-    t += "(* ---- truth: the sets of types each testing function treats as false ---- *)\n"
-    for name in ("is_true_value", "jump_if_true", "jump_if_false"):
-        types, complement = falsy[name]
-        lst = "[" + "; ".join("T_" + x for x in types) + "]"
-        if complement:
-            t += "Definition %s_falsy : list data_type := filter (fun t => negb (existsb (data_type_eqb t) %s)) all_data_type.\n" % (name, lst)
-        else:
-            t += "Definition %s_falsy : list data_type := %s.\n" % (name, lst)
-    t += "\n(* ---- logical operators: what `and`/`or` do when the tested value is true / false ---- *)\n"
-    t += "Inductive logic_branch : Type := LJump | LPush (b : bool).\n"
-    for name in ("and", "or"):
-        t += "Definition %s_on_true : logic_branch := %s.\nDefinition %s_on_false : logic_branch := %s.\n" % (
-            name, logic[name]["true"], name, logic[name]["false"])
-    x = logic["xor"]
-    t += ("Definition xor_table (l r : bool) : bool :=\n  match l, r with\n  | false, false => %s | false, true => %s\n"
-          "  | true, false => %s | true, true => %s\n  end.\n" % (x[(False, False)], x[(False, True)], x[(True, False)], x[(True, True)]))
-    t += "Definition not_negates : bool := %s.\nDefinition tis_negates : bool := %s.\n\n" % (logic["not"], logic["tis"])
     # op shapes
     t += "(* ---- the op functions execute.rs calls ---- *)\n"
     t += "Inductive logic_op : Type := L_and | L_or | L_xor | L_not | L_tis.\n"
@@ -695,12 +747,33 @@ def generate():
     t += ("Inductive op_shape : Type :=\n"
           "| ShSelf (f : disp_fn)\n"
           "| ShVia (f : disp_fn) (i : option instruction) (pre_push_unit : bool) (flags : list bool)\n"
-          "| ShCompare\n| ShLogic (l : logic_op)\n| ShJumpIf (on_true : bool)\n| ShPlain (p : plain_op).\n")
+          "| ShCompare\n| ShLogic (l : logic_op)\n| ShJumpIf (on_true : bool)\n| ShPlain (p : plain_op)\n"
+          "| ShUnknown.   (* shape not recognised by the translator *)\n")
     t += "Definition op_shape_of (o : op_fn) : op_shape :=\n  match o with\n"
     for op in ops:
         t += "  | Op_%s => %s\n" % (op, shapes[op])
     t += "  end.\n"
     return {"Dispatch.v": t}
+
+
+def refresh_arms():
+    """rewrite tools/arms.json for the current tree: every non-deferring arm body gets an entry
+    under its current hash (name kept through name_for), old entries stay; arms that could only
+    be classified as `other` are listed for a human to name."""
+    fns, shapes, ops, arm_names = analyse_all()
+    unnamed = []
+    for f in fns:
+        for nm, h, pat in f.named:
+            if nm == "other":
+                unnamed.append((f.name, h, pat))
+                continue
+            e = arm_names.setdefault(f.name, {}).setdefault(h, {"name": nm})
+            e["name"] = nm
+            e["first_pattern"] = alt_texts(pat)[0]
+            e["patterns"] = alt_texts(pat)
+    arm_names["_fingerprints"] = body_fingerprints()
+    json.dump(arm_names, open(ARMS_JSON, "w"), indent=1, sort_keys=True)
+    return unnamed
 
 
 def body_fingerprints():
@@ -719,7 +792,47 @@ def body_fingerprints():
     return out
 
 
+def truth_generate():
+    """Gen/Truth.v (tools/sync/truth.py): falsy sets and logical-operator shapes"""
+    sources = all_rt_sources()
+    falsy = {}
+    for name, file in DISPATCH:
+        if name in ("is_true_value", "jump_if_true", "jump_if_false"):
+            falsy[name] = falsy_of(name, sources[file])
+    logic = logic_shapes(sources["logical.rs"])
+    t = R.HEADER % "runtime/src/runtime/logical.rs, runtime/src/runtime/jumps.rs"
+    t = t.replace("From Coq Require Import NArith List.", "From Coq Require Import NArith List Bool.\nFrom GV Require Import Gen.Instr.")
+    t += "(* ---- truth: the sets of types each testing function treats as false ---- *)\n"
+    for name in ("is_true_value", "jump_if_true", "jump_if_false"):
+        types, complement = falsy[name]
+        lst = "[" + "; ".join("T_" + x for x in types) + "]"
+        if complement:
+            t += "Definition %s_falsy : list data_type := filter (fun t => negb (existsb (data_type_eqb t) %s)) all_data_type.\n" % (name, lst)
+        else:
+            t += "Definition %s_falsy : list data_type := %s.\n" % (name, lst)
+    t += "\n(* ---- logical operators: what `and`/`or` do when the tested value is true / false ---- *)\n"
+    t += "Inductive logic_branch : Type := LJump | LPush (b : bool).\n"
+    for name in ("and", "or"):
+        t += "Definition %s_on_true : logic_branch := %s.\nDefinition %s_on_false : logic_branch := %s.\n" % (
+            name, logic[name]["true"], name, logic[name]["false"])
+    x = logic["xor"]
+    t += ("(* `let (left, right) = next_two_raw_ref(this)?`: [l] is the FIRST pop *)\n"
+          "Definition xor_table (l r : bool) : bool :=\n  match l, r with\n  | false, false => %s | false, true => %s\n"
+          "  | true, false => %s | true, true => %s\n  end.\n" % (x[(False, False)], x[(False, True)], x[(True, False)], x[(True, True)]))
+    t += "Definition not_negates : bool := %s.\nDefinition tis_negates : bool := %s.\n" % (logic["not"], logic["tis"])
+    return {"Truth.v": t}
+
+
 def fingerprint_changes():
     snap = json.load(open(ARMS_JSON)).get("_fingerprints", {})
     cur = body_fingerprints()
     return sorted(k for k in set(snap) | set(cur) if snap.get(k) != cur.get(k))
+
+
+if __name__ == "__main__":
+    import sys
+    if "--refresh" in sys.argv:
+        for fn, h, pat in refresh_arms():
+            print("UNNAMED arm (give it a name in tools/arms.json and a meaning in Model/OpDispatch.v): %s %s %s" % (fn, h, pat))
+        print("errors:", ERRORS)
+        print("\n".join(NOTES))
